@@ -22,6 +22,8 @@ Definition mall (p : Q -> bool) (A : qmat) : bool := forallb (forallb p) A.
 Definition shape_ok (r n : nat) (A : qmat) : bool := Nat.eqb (length A) r && forallb (fun row => Nat.eqb (length row) n) A.
 
 Fixpoint iterl {A} (m : nat) (f : A -> A) (x : A) : A := match m with O => x | S k => iterl k f (f x) end.
+(* [x; f x; ...; f^k x] *)
+Fixpoint iterates {A} (k : nat) (f : A -> A) (x : A) : list A := x :: match k with O => [] | S k' => iterates k' f (f x) end.
 
 (* penalised objective summed over the columns: sum_j  v_j' G v_j / 2 - b_j' v_j + l1 sum v_j + l2 sum v_j^2 *)
 Definition objective (UtM UtU : qmat) (n : nat) (l1 l2 : Q) (V : qmat) : Q :=
@@ -38,10 +40,12 @@ Definition kkt_ok (UtM UtU : qmat) (n : nat) (l1 l2 eps t : Q) (V : qmat) : bool
 Definition optq (o : option Q) : Q := match o with Some x => x | None => 0%Q end.
 
 Inductive case :=
-(* hals_nnls from V0 (None: cold start, sol = recorded tl.solve answer) with n_iter_max = iters, tol;
-   impl: Err = raised, Ok None = non-finite output, Ok (Some V) *)
+(* hals_nnls from V0 with n_iter_max = iters, tol.  V0 = None: cold start; then sol = recorded tl.solve answer and
+   impl0 = the implementation's own start (its result for n_iter_max = 0): the model's hals_init(sol) must agree with
+   impl0, and the passes are compared from impl0 (a float matrix: keeps the rationals small; hals_nnls is the loop
+   composed with the start by definition).  impl: Err = raised, Ok None = non-finite output, Ok (Some V) *)
 | CHals (id : nat) (UtM UtU : qmat) (n : nat) (V0 : option qmat) (sol : qmat) (iters : nat) (tol : Q)
-        (o : @hopts Q) (impl : res (option qmat))
+        (o : @hopts Q) (impl0 : qmat) (impl : res (option qmat))
 (* a returned ("converged") point V of a solver for the problem with optimum Xstar (exactly KKT by construction):
    which = 0 hals (row-update fixed point is tested), 1 fista / active set (projected-gradient fixed point with step lr) *)
 | CConv (id : nat) (which : nat) (UtM UtU : qmat) (n : nat) (l1 l2 eps lr : Q) (V Xstar : qmat) (tstep tkkt tobj : Q)
@@ -50,7 +54,7 @@ Inductive case :=
 | CAdmm (id : nat) (UtM UtU x dual : qmat) (m r : nat) (implx implsplit : qmat).
 
 Definition ident (c : case) : nat :=
-  match c with CHals i _ _ _ _ _ _ _ _ _ => i | CConv i _ _ _ _ _ _ _ _ _ _ _ _ _ => i
+  match c with CHals i _ _ _ _ _ _ _ _ _ _ => i | CConv i _ _ _ _ _ _ _ _ _ _ _ _ _ => i
              | CFista i _ _ _ _ _ _ _ _ _ _ _ _ => i | CAset i _ _ _ _ _ _ => i | CAdmm i _ _ _ _ _ _ _ _ => i end.
 
 Definition atol : Q := 1 # 1000000000.
@@ -65,16 +69,15 @@ Definition msolve' (n : nat) (A B : qmat) : qmat := match msolve n A B with Some
 
 Definition agree (c : case) : bool :=
   match c with
-  | CHals _ UtM UtU n V0 sol iters tol o impl =>
-    match hals_nnls Qops UtM UtU n V0 sol iters tol o, impl with
+  | CHals _ UtM UtU n V0 sol iters tol o impl0 impl =>
+    let start_ok := match V0 with Some _ => true | None => mclose atol rtol (hals_init Qops UtM UtU n sol) impl0 end in
+    let V := match V0 with Some V => V | None => impl0 end in
+    match hals_nnls Qops UtM UtU n (Some V) sol iters tol o, impl with
     | Err, Err => true
-    | Ok None, Ok None => true
-    | Ok (Some _), Ok (Some W) =>
-      (* the returned point is one of the model's iterates (the number of passes taken is incidental) *)
-      match (match V0 with Some V => Some V | None => hals_init Qops UtM UtU n sol end) with
-      | Some V => existsb (fun m => mclose atol rtol (iterl m (hals_pass Qops UtM UtU n o) V) W) (rev (seq 0 (S iters)))
-      | None => false
-      end
+    | Ok M, Ok (Some W) =>
+      (* the returned point is the model's result, or at least one of the model's iterates (the number of passes
+         taken is incidental: the stopping test compares rounded quantities) *)
+      start_ok && (mclose atol rtol M W || existsb (fun X => mclose atol rtol X W) (iterates iters (hals_pass Qops UtM UtU n o) V))
     | _, _ => false
     end
   | CConv _ which UtM UtU n l1 l2 eps lr V Xstar tstep tkkt tobj =>
